@@ -199,49 +199,50 @@ def class_source(c, ns, table):
 
 
 def reference(c, vals, dflt, conds, E, s):
-    """Independent reference selection (Python's operator module).  Returns
-    (lazy outcome: {'keys': [...]} | {'raises': name}, eager_raises: bool)."""
+    """Independent reference selection (Python's operator module).
+
+    For every field the set of admissible statuses ('omit', 'keep', 'raise'): a field
+    named in E is omitted and nothing is evaluated for it; otherwise the field is
+    omitted when its default test or its condition test holds, whichever is consulted
+    first (both orders are admitted), and a test that must be consulted and raises
+    makes the dump raise.  A dump=False field is omitted; its tests may or may not be
+    consulted.  Returns {'fields': [{'key', 'acc'}], 'lazy': {'keys': [...]} | {'raises': ..}}
+    where 'lazy' is the outcome when the default test is consulted first."""
     meta = c['meta']
     se = bool(s) if s is not None else bool(meta.get('skip_defaults') or meta.get('skip_defaults_if') is not None)
     sdi = conds['sdi']
     msk = conds['skip_if']
-
-    def tst(cond, v):
-        r = test_op(cond[0], v, cond[1])
-        if r.startswith('E:'):
-            raise TypeError(r)
-        return r == 'T'
-
-    eager = False
+    out = []
+    lazy_keys, lazy_raise = [], False
     for f, v in zip(c['fields'], vals):
-        for cond in ([sdi] if (sdi is not None and f['default'] is not None) else []) + \
-                    ([conds['own'][f['name']]] if f['name'] in conds['own'] else ([msk] if msk is not None else [])):
-            if test_op(cond[0], v, cond[1]).startswith('E:'):
-                eager = True
-    keys = []
-    try:
-        # all tests on defaults first (a field may be dropped before its own condition is consulted)
-        dropped = set()
-        for f, v in zip(c['fields'], vals):
-            if (E is not None and f['name'] in E) or not f['dump']:
-                dropped.add(f['name'])
-                continue
-            if se and f['default'] is not None:
-                if sdi is not None:
-                    if tst(sdi, v):
-                        dropped.add(f['name'])
-                elif v == dflt[f['name']]:
-                    dropped.add(f['name'])
-        for f, v in zip(c['fields'], vals):
-            if f['name'] in dropped:
-                continue
-            cond = conds['own'].get(f['name'], msk)
-            if cond is not None and tst(cond, v):
-                continue
-            keys.append(f['key'])
-    except TypeError as e:
-        return {'raises': 'TypeError'}, eager
-    return {'keys': keys}, eager
+        if E is not None and f['name'] in E:
+            out.append({'key': f['key'], 'acc': ['omit']})
+            continue
+        # default test: T / F / E
+        dt = 'F'
+        if se and f['default'] is not None:
+            dt = test_op(sdi[0], v, sdi[1]) if sdi is not None else test_op('==', v, dflt[f['name']])
+        cond = conds['own'].get(f['name'], msk)
+        ct = test_op(cond[0], v, cond[1]) if cond is not None else 'F'
+
+        def seq(a, b):
+            if a == 'T':
+                return 'omit'
+            if a.startswith('E:'):
+                return 'raise'
+            return 'omit' if b == 'T' else ('raise' if b.startswith('E:') else 'keep')
+        if not f['dump']:
+            acc = {'omit'} | ({'raise'} if dt.startswith('E:') or ct.startswith('E:') else set())
+            lz = 'omit'
+        else:
+            acc = {seq(dt, ct), seq(ct, dt)}
+            lz = seq(dt, ct)
+        out.append({'key': f['key'], 'acc': sorted(acc)})
+        if lz == 'raise':
+            lazy_raise = True
+        elif lz == 'keep':
+            lazy_keys.append(f['key'])
+    return {'fields': out, 'lazy': {'raises': 'TypeError'} if lazy_raise else {'keys': lazy_keys}}
 
 
 def run_case(c):
@@ -307,14 +308,14 @@ def run_case(c):
                     got = {'keys': list(d.keys()), 'vals': {k: canon(v) for k, v in d.items()}}
                 except BaseException as e:  # noqa
                     got = {'err': type(e).__name__, 'msg': str(e)[:160]}
-                exp, eager = reference(c, vals, dflt, conds, E, s)
+                exp = reference(c, vals, dflt, conds, E, s)
                 # Condition.evaluate against the operator module, on the conditions of this class
                 ev_bad = []
                 for f, v in zip(c['fields'], vals):
                     for k in [conds['own'].get(f['name']), conds['skip_if'], conds['sdi']]:
                         if k is not None and test_evaluate(k[0], v, k[1]) != test_op(k[0], v, k[1]):
                             ev_bad.append([f['name'], k[0]])
-                rec['calls'].append({'got': got, 'exp': exp, 'eager_raises': eager, 'evaluate_mismatch': ev_bad})
+                rec['calls'].append({'got': got, 'exp': exp, 'evaluate_mismatch': ev_bad})
         try:   # after the calls, so that the first generated cls_asdict is the one of the class under test
             tw = twin(**kwargs).to_dict()
             rec['baseline'] = {f['name']: canon(v) for f, (_k, v) in zip(c['fields'], tw.items())}
